@@ -234,7 +234,7 @@ type c18Handles struct {
 	itRel     []iterator.Iterator // one fresh released iterator per iterator method
 	itUsed    iterator.Iterator   // released, then moved once
 	itLive    []iterator.Iterator // one per iterator method, each positioned on the second key
-	journalKV int // keys written after the last flush: only in the journal
+	journalKV int                 // keys written after the last flush: only in the journal
 	frozen    bool
 }
 
@@ -569,6 +569,8 @@ func (k *c18Case) scenarioOpenRO(st *stor.Stor, m kvmap, nj, journalKV int) {
 	k.scen = "openRO"
 	k.logf("clone of the storage; Open with ReadOnly (%d journals, %d tail writes only in the journal)", nj, journalKV)
 	files0 := c18Files(st)
+	st.ListOrder = k.no % 3 // Storage.List promises no order
+	c.Res.Count("openRO:list-order", []string{"ascending", "descending", "scrambled"}[st.ListOrder])
 	db, cls, err := k.open(st, true)
 	c.Res.Eval(fmt.Sprintf("%d/openRO/open/%d", k.no, nj), k.nontrivial)
 	c.Res.Count("openRO:open", fmt.Sprintf("journals=%d: %s", nj, cls))
@@ -1107,7 +1109,7 @@ func (k *c18Case) scenarioOwnership(base *stor.Stor, m kvmap) {
 // ---- driver -----------------------------------------------------------------------------------------
 
 func runC18(c *Ctx) {
-	c.Res.Rule = "each case: a random DB program (puts/deletes/batches/large batches/compactions/reopen/transactions, tiny buffers, mostly bytewise comparer) builds a storage; clones of it are driven into the states closed (tail only in the journal, live/released snapshots and iterators, committed/discarded/open transaction, in a third of the cases a frozen buffer still unflushed at Close), openRO (the storage exactly as Close left it, opened with ReadOnly) and switchedRO (SetReadOnly, drain of the background work), plus openRW; in each state EVERY public method of DB, Snapshot, Transaction and the DB iterator is called under a 10 s watchdog on the recording storage. One evaluation = one call (state × receiver × method) or one direct check (second Open refused, reopen after Close serves the plain map, read-only session leaves the files bit-identical, nothing mutated after SetReadOnly+drain, NewIterator/Get overlapping Close, ownership traces, a real file storage); it is checked against the property's demand for that state and against the Lean table (`life` lines). Non-trivial = the case's DB holds ≥ 3 keys and ≥ 1 table; distinct by (case, scenario, state, receiver, method)."
+	c.Res.Rule = "each case: a random DB program (puts/deletes/batches/large batches/compactions/reopen/transactions, tiny buffers, mostly bytewise comparer) builds a storage; clones of it are driven into the states closed (tail only in the journal, live/released snapshots and iterators, committed/discarded/open transaction, in a third of the cases a frozen buffer still unflushed at Close), openRO (the storage exactly as Close left it, opened with ReadOnly) and switchedRO (SetReadOnly, drain of the background work), plus openRW, and switchedRO entered while a compaction is retrying after failing table creations (every write-side call must then return the read-only error, Close must return); in each state EVERY public method of DB, Snapshot, Transaction and the DB iterator is called under a 10 s watchdog on the recording storage. One evaluation = one call (state × receiver × method) or one direct check (second Open refused, reopen after Close serves the plain map, read-only session leaves the files bit-identical, nothing mutated after SetReadOnly+drain, NewIterator/Get overlapping Close, ownership traces, a real file storage); it is checked against the property's demand for that state and against the Lean table (`life` lines). Non-trivial = the case's DB holds ≥ 3 keys and ≥ 1 table; distinct by (case, scenario, state, receiver, method)."
 	defer UninstallSink()
 	ncases := c.Scale(120, 1500)
 	for i := 0; i < ncases && c.TimeLeft() && !c.Hung; i++ {
@@ -1159,6 +1161,12 @@ func runC18(c *Ctx) {
 		k.scenarioSwitched(base, m, i%2 == 0)
 		if c.Hung {
 			return
+		}
+		if i%4 == 1 {
+			k.scenarioSwitchedDuringError(base, m)
+			if c.Hung {
+				return
+			}
 		}
 		if i%3 == 0 {
 			k.scenarioRace(base, m)
